@@ -150,6 +150,23 @@ def wstop (w : W) : Option W :=
 closes a frame that stands at `LYB_SIZE_MAX` -/
 def loopFuel (count nframes : Nat) : Nat := count * (nframes + 1) + nframes + 1
 
+/-- "we are actually writing some data, not just finishing another chunk": `ly_write_` of `tw` bytes and
+`written += tw` in every open frame -/
+def wdata (w : W) (buf : Bytes) (tw : Nat) : W :=
+  if tw > 0 then { out := w.out ++ [.seg (buf.take tw)], frames := addWritten tw w.frames } else w
+
+/-- `if (full)`: write the meta information of frame `u`, zero its counters, reserve the next record
+(`ly_write_skip`), count it in the outer frames (`LY_EINT` when one of them is at `LYB_INCHUNK_MAX`) -/
+def wclose (P : Params) (w1 : W) (u : Nat) : Option W :=
+  match w1.frames[u]? with
+  | none => none
+  | some f =>
+    match bumpInner P.inMax (w1.frames.drop (u + 1)) with
+    | none => none
+    | some outer =>
+      some { out := patch w1.out f ++ [.hdr 0 0],
+             frames := w1.frames.take u ++ { written := 0, pos := (patch w1.out f).length, inner := 0 } :: outer }
+
 /-- the `while (1)` loop of `lyb_write` -/
 def wloop (P : Params) : Nat → W → Bytes → Option W
   | 0, w, _ => some w
@@ -158,22 +175,12 @@ def wloop (P : Params) : Nat → W → Bytes → Option W
     | (tw, full) =>
       if full.isNone && buf.isEmpty then some w
       else
-        -- we are actually writing some data, not just finishing another chunk
-        let w1 : W := if tw > 0 then { out := w.out ++ [.seg (buf.take tw)], frames := addWritten tw w.frames } else w
-        let buf1 := buf.drop tw
         match full with
-        | none => wloop P fuel w1 buf1
+        | none => wloop P fuel (wdata w buf tw) (buf.drop tw)
         | some u =>
-          match w1.frames[u]? with
+          match wclose P (wdata w buf tw) u with
           | none => none
-          | some f =>
-            -- write the meta information, zero the counters, reserve the next record, count it in the outer frames
-            let out2 := patch w1.out f
-            let f' : WFrame := { written := 0, pos := out2.length, inner := 0 }
-            match bumpInner P.inMax (w1.frames.drop (u + 1)) with
-            | none => none
-            | some outer =>
-              wloop P fuel { out := out2 ++ [.hdr 0 0], frames := w1.frames.take u ++ f' :: outer } buf1
+          | some w2 => wloop P fuel w2 (buf.drop tw)
 
 /-- `lyb_write(out, buf, count, lybctx)` -/
 def wwrite (P : Params) (w : W) (buf : Bytes) : Option W :=
@@ -224,6 +231,15 @@ def scanR : List RFrame → Nat → Nat × Option Nat
 
 def subWritten (n : Nat) (fs : List RFrame) : List RFrame := fs.map fun f => { f with written := f.written - n }
 
+/-- `ly_in_read` / `ly_in_skip` of `tr` bytes and `written -= tr` in every open frame -/
+def rdata (r : R) (tr : Nat) : R :=
+  if tr > 0 then { inp := r.inp.drop tr, frames := subWritten tr r.frames } else r
+
+/-- `if (empty) lyb_read_sibling_meta(empty, lybctx)` -/
+def rclose (P : Params) (r1 : R) (u : Nat) : R :=
+  match readMeta P r1.inp with
+  | (f, rest) => { inp := rest, frames := r1.frames.set u f }
+
 /-- the `while (1)` loop of `lyb_read`; `acc` collects the bytes copied to `buf` -/
 def rloop (P : Params) : Nat → R → Nat → Bytes → R × Bytes
   | 0, r, _, acc => (r, acc)
@@ -232,14 +248,10 @@ def rloop (P : Params) : Nat → R → Nat → Bytes → R × Bytes
     | (tr, empty) =>
       if empty.isNone && count == 0 then (r, acc)
       else
-        let r1 : R := if tr > 0 then { inp := r.inp.drop tr, frames := subWritten tr r.frames } else r
         let acc1 := if tr > 0 then acc ++ r.inp.take tr else acc
-        let count1 := count - tr
         match empty with
-        | none => rloop P fuel r1 count1 acc1
-        | some u =>
-          match readMeta P r1.inp with
-          | (f, rest) => rloop P fuel { inp := rest, frames := r1.frames.set u f } count1 acc1
+        | none => rloop P fuel (rdata r tr) (count - tr) acc1
+        | some u => rloop P fuel (rclose P (rdata r tr) u) (count - tr) acc1
 
 /-- `lyb_read(buf, count, lybctx)` -/
 def rread (P : Params) (r : R) (count : Nat) : R × Bytes :=
